@@ -56,25 +56,95 @@ CConn(s, d, pt, pr) == [src |-> s, dst |-> d, port |-> pt, proto |-> CProto[pr]]
 \* ---- the property ---------------------------------------------------------------------------------------------
 Judged(cl, nps, defaulted) == K!ClusterOK(cl) /\ \A i \in DOMAIN nps : K!PolicyOK(nps[i], defaulted)
 
-ConnOK(cl, nps, w, pols, s, d, pt, pr) ==
-    \/ K!Unspecified(cl, nps, KConn(s, d, pt, pr))
-    \/ LET kv == K!Allowed(cl, nps, KConn(s, d, pt, pr))
-           cc == CConn(s, d, pt, pr)
-       IN IF C!Decidable(w, pols, cc) /\ kv = C!Allowed(w, pols, cc) THEN TRUE
-          ELSE PrintT(<<"C29_DIFF", [src |-> s, dst |-> d, port |-> pt, proto |-> pr, kubernetes |-> kv,
-                                      calico |-> IF C!Decidable(w, pols, cc) THEN C!Allowed(w, pols, cc) ELSE "undecidable"]>>) /\ FALSE
-
 \* one converted policy per NetworkPolicy, in the same sequence, each with a meaning
 ConvertedOK(nps, w, pols) ==
     /\ Len(pols) = Len(nps)
     /\ C!WorldOK(w)
     /\ \A i \in DOMAIN pols : C!PolicyOK(pols[i])
 
+\* The plain statement for one connection ...
+ConnAgrees(cl, nps, w, pols, s, d, pt, pr) ==
+    \/ K!Unspecified(cl, nps, KConn(s, d, pt, pr))
+    \/ /\ C!Decidable(w, pols, CConn(s, d, pt, pr))
+       /\ K!Allowed(cl, nps, KConn(s, d, pt, pr)) = C!Allowed(w, pols, CConn(s, d, pt, pr))
+
+\* ... and the same statement for all probe connections, evaluated with memoised parts (TLCEval = evaluate
+\* now into an explicit function, do not re-evaluate at every use): the port halves of all rules are
+\* tabulated once per destination address, the address halves once per (source, destination) pair.
+\* K!DirAllowedG, C!TierVerdictG and C!ProfileVerdictG are the very operators the plain forms are instances
+\* of; only the halves of the rules are looked up instead of recomputed.  On `spot` (a set of
+\* (port, protocol) combinations) and one source per destination the plain statement is evaluated as well
+\* and must give the same answer - a disagreement is a defect of these specifications, reported as
+\* C29_SPECBUG, never as a verdict about the code.
+DstTables(cl, nps, w, pols, ix, pp, d) ==
+    [ kI |-> TLCEval([i \in DOMAIN nps |-> TLCEval([j \in DOMAIN nps[i].ingress |->
+                TLCEval([x \in pp |-> K!RulePorts(cl, nps[i].ingress[j], d, x[1], x[2])])])]),
+      kE |-> TLCEval([i \in DOMAIN nps |-> TLCEval([j \in DOMAIN nps[i].egress |->
+                TLCEval([x \in pp |-> K!RulePorts(cl, nps[i].egress[j], d, x[1], x[2])])])]),
+      cI |-> TLCEval([i \in DOMAIN pols |-> TLCEval([j \in DOMAIN pols[i].inb |->
+                TLCEval([x \in pp |-> C!RulePorts(w, ix, pols[i].inb[j], d, x[1], CProto[x[2]])])])]),
+      cE |-> TLCEval([i \in DOMAIN pols |-> TLCEval([j \in DOMAIN pols[i].outb |->
+                TLCEval([x \in pp |-> C!RulePorts(w, ix, pols[i].outb[j], d, x[1], CProto[x[2]])])])]),
+      pI |-> TLCEval([q \in DOMAIN w.profiles |-> TLCEval([j \in DOMAIN w.profiles[q].inb |->
+                TLCEval([x \in pp |-> C!RulePorts(w, ix, w.profiles[q].inb[j], d, x[1], CProto[x[2]])])])]),
+      pE |-> TLCEval([q \in DOMAIN w.profiles |-> TLCEval([j \in DOMAIN w.profiles[q].outb |->
+                TLCEval([x \in pp |-> C!RulePorts(w, ix, w.profiles[q].outb[j], d, x[1], CProto[x[2]])])])]) ]
+
+PairOK(cl, nps, w, pols, ix, pp, T, s, d, spot) ==
+    LET sp == K!PodAt(cl, s)
+        dp == K!PodAt(cl, d)
+        se == C!EpAt(w, s)
+        de == C!EpAt(w, d)
+        unspec == K!UnspecifiedPair(cl, nps, s, d)
+        kGovE == TLCEval([i \in DOMAIN nps |-> \A p \in sp : K!Governs(nps[i], p, "Egress")])
+        kGovI == TLCEval([i \in DOMAIN nps |-> \A p \in dp : K!Governs(nps[i], p, "Ingress")])
+        kPeerE == TLCEval([i \in DOMAIN nps |-> TLCEval([j \in DOMAIN nps[i].egress |-> K!RulePeers(cl, nps[i], nps[i].egress[j], d)])])
+        kPeerI == TLCEval([i \in DOMAIN nps |-> TLCEval([j \in DOMAIN nps[i].ingress |-> K!RulePeers(cl, nps[i], nps[i].ingress[j], s)])])
+        cAppE == TLCEval([i \in DOMAIN pols |-> TLCEval([e \in se |-> C!Applies(ix, pols[i], e, "egress")])])
+        cAppI == TLCEval([i \in DOMAIN pols |-> TLCEval([e \in de |-> C!Applies(ix, pols[i], e, "ingress")])])
+        cAddrE == TLCEval([i \in DOMAIN pols |-> TLCEval([j \in DOMAIN pols[i].outb |-> C!RuleAddr(w, ix, pols[i].outb[j], s, d)])])
+        cAddrI == TLCEval([i \in DOMAIN pols |-> TLCEval([j \in DOMAIN pols[i].inb |-> C!RuleAddr(w, ix, pols[i].inb[j], s, d)])])
+        pAddrE == TLCEval([q \in DOMAIN w.profiles |-> TLCEval([j \in DOMAIN w.profiles[q].outb |-> C!RuleAddr(w, ix, w.profiles[q].outb[j], s, d)])])
+        pAddrI == TLCEval([q \in DOMAIN w.profiles |-> TLCEval([j \in DOMAIN w.profiles[q].inb |-> C!RuleAddr(w, ix, w.profiles[q].inb[j], s, d)])])
+        KV(x) ==
+            /\ sp # {} => K!DirAllowedG(nps, "Egress", LAMBDA i : kGovE[i], LAMBDA i, j : kPeerE[i][j], LAMBDA i, j : T.kE[i][j][x])
+            /\ dp # {} => K!DirAllowedG(nps, "Ingress", LAMBDA i : kGovI[i], LAMBDA i, j : kPeerI[i][j], LAMBDA i, j : T.kI[i][j][x])
+        CV1(e, dir, x) ==
+            LET t == IF dir = "egress"
+                     THEN C!TierVerdictG(pols, dir, LAMBDA i : cAppE[i][e], LAMBDA i, j : cAddrE[i][j], LAMBDA i, j : T.cE[i][j][x])
+                     ELSE C!TierVerdictG(pols, dir, LAMBDA i : cAppI[i][e], LAMBDA i, j : cAddrI[i][j], LAMBDA i, j : T.cI[i][j][x])
+            IN IF t # "none" THEN t
+               ELSE IF dir = "egress"
+                    THEN C!ProfileVerdictG(w, e, dir, LAMBDA q, j : pAddrE[q][j], LAMBDA q, j : T.pE[q][j][x])
+                    ELSE C!ProfileVerdictG(w, e, dir, LAMBDA q, j : pAddrI[q][j], LAMBDA q, j : T.pI[q][j][x])
+        CVs(x) == { CV1(e, "egress", x) : e \in se } \cup { CV1(e, "ingress", x) : e \in de }
+        Diff(x, kv, cvs) ==
+            PrintT(<<"C29_DIFF", [src |-> s, dst |-> d, port |-> x[1], proto |-> x[2], kubernetes |-> kv, calico |-> cvs]>>)
+    IN \A x \in pp :
+          LET kv == KV(x)
+              cvs == CVs(x)
+              ok == unspec \/ ("ambiguous" \notin cvs /\ kv = (cvs \subseteq {"allow"}))
+          IN /\ ok \/ (Diff(x, kv, cvs) /\ FALSE)
+             /\ x \in spot =>
+                   \/ ok = ConnAgrees(cl, nps, w, pols, s, d, x[1], x[2])
+                   \/ PrintT(<<"C29_SPECBUG", s, d, x, ok>>) /\ FALSE
+
 CaseOK(cl, nps, w, pols, defaulted) ==
     Judged(cl, nps, defaulted) =>
         /\ ConvertedOK(nps, w, pols) \/ (PrintT(<<"C29_DIFF", "converted objects outside the specified model">>) /\ FALSE)
-        /\ \A sd \in Pairs(cl, nps) : \A pt \in ProbePorts(cl, nps) : \A pr \in K!Protocols :
-              ConnOK(cl, nps, w, pols, sd[1], sd[2], pt, pr)
+        /\ LET ix == TLCEval(C!Index(w))
+               ports == ProbePorts(cl, nps)
+               pp == ports \X K!Protocols
+               addrs == ProbeAddrs(cl, nps)
+               pods == PodAddrs(cl)
+               \* spot checks: the extremes of the port set with two protocols
+               spot == { <<CHOOSE x \in ports : \A y \in ports : x <= y, "TCP">>,
+                         <<CHOOSE x \in ports : \A y \in ports : x >= y, "UDP">> }
+           IN \A d \in addrs :
+                 LET T == DstTables(cl, nps, w, pols, ix, pp, d)
+                     srcs == { s \in addrs : s # d /\ Len(s) = Len(d) /\ (s \in pods \/ d \in pods) }
+                     s0 == CHOOSE s \in srcs : TRUE
+                 IN \A s \in srcs : PairOK(cl, nps, w, pols, ix, pp, T, s, d, IF s = s0 THEN spot ELSE {})
 
 NConns(cl, nps) == Cardinality(Pairs(cl, nps)) * Cardinality(ProbePorts(cl, nps)) * Cardinality(K!Protocols)
 =============================================================================
